@@ -277,16 +277,15 @@ Qed.
 
 Lemma ambig1_r f m c : ambig1 (r_frame f) m (r_col c) = (r_col (fst (ambig1 f m c)), snd (ambig1 f m c)).
 Proof.
-  unfold ambig1. simpl (q (r_col c)). simpl (cap (r_col c)). simpl (cn (r_col c)). simpl (cju (r_col c)).
+  unfold ambig1. rewrite col_out_r. simpl (q (r_col c)). simpl (cap (r_col c)). simpl (cn (r_col c)). simpl (cju (r_col c)).
   simpl (f_joins (r_frame f)).
   destruct (q c) as [|d|nm]; simpl; auto.
-  destruct (cap c); simpl; auto.
   destruct (f_joins f) as [|j js]; simpl; auto.
   rewrite ctes_with_r. rewrite nth_error_map_r.
-  destruct (nth_error (ctes_with f (cn c)) (pos_of m (cn c))) as [k|]; simpl; auto.
-  destruct (pos_of m (cn c)) as [|p'].
-  - rewrite last_map_some. destruct (last (map Some (ctes_with f (cn c))) None); reflexivity.
-  - rewrite nth_error_map_r. destruct (nth_error (ctes_with f (cn c)) p'); reflexivity.
+  destruct (nth_error (ctes_with f (col_out c)) (pos_of m (col_out c))) as [k|]; simpl; auto.
+  destruct (pos_of m (col_out c)) as [|p'].
+  - rewrite last_map_some. destruct (last (map Some (ctes_with f (col_out c))) None); reflexivity.
+  - rewrite nth_error_map_r. destruct (nth_error (ctes_with f (col_out c)) p'); reflexivity.
 Qed.
 
 Lemma ambig_r f cs : forall m, ambig (r_frame f) m (map r_col cs) = map r_col (ambig f m cs).
@@ -329,9 +328,13 @@ Proof. reflexivity. Qed.
 Definition r_acc (a : acc) : acc :=
   mkAcc (map r_cte (a_out a)) (map r_tx (a_names a)) (r_map (a_map a)) (a_j a) (option_map r_tx (a_last a)) (a_nctr a).
 
+Lemma is_marker_r t : is_marker (r_tx t) = is_marker t.
+Proof. destruct t as [|[]| |]; reflexivity. Qed.
+
 Lemma first_ctr_r t : first_ctr (r_tx t) = option_map pc (first_ctr t).
 Proof.
   induction t as [|[]|n IH|l IHl r IHr]; simpl; auto.
+  rewrite is_marker_r. destruct (is_marker l); auto.
   rewrite IHl, IHr. destruct (first_ctr l); reflexivity.
 Qed.
 
